@@ -194,6 +194,10 @@ def run_path(world, contract, ex, ctx, prefix, report):
                 result = it.coerce_checked(result, contract.returns, 'result-not-None', ex.node)
             it.result = result
             it.spec = True
+            # in postconditions parameter names denote the values passed in (re-binding a parameter is local)
+            for pn in contract.params:
+                if pn in it.old_env:
+                    it.env[pn] = it.old_env[pn]
             for i, e in enumerate(contract.ensures):
                 it.check(weaken(it, contract, 'post[%d]' % i, it.truth(it.eval_text(e))),
                          'post[%d]' % i, 'postcondition', ex.node)
@@ -208,6 +212,9 @@ def run_path(world, contract, ex, ctx, prefix, report):
         else:
             it.exc = exc
             it.spec = True
+            for pn in contract.params:
+                if pn in it.old_env:
+                    it.env[pn] = it.old_env[pn]
             allowed = False
             for ek, cond in contract.raises.items():
                 if world.exc_is(exc.kind, ek):
